@@ -606,7 +606,10 @@ def evaluate(spec):
             tag = 'shortcut'
             fails += shortcut_check(spec, pre, q)
         else:
-            fails += against_scratch(spec, pre, q)
+            try:
+                fails += against_scratch(spec, pre, q)
+            except ValueError as e:
+                fails.append(('exception', 'extend accepted an input for which the tensor-product pulse cannot be built: %s' % e))
             nontriv = q._filter_function is None or np.abs(q._filter_function).max() > 0
     builder = (lambda name: coq_case(name, spec, descs, obs)) if obs is not None else None
     return builder, fails, nontriv, tag
